@@ -63,7 +63,25 @@ Definition r_divide (r : ref) (offsets : list Z) : list ref :=
              (pairs_of (0 :: offsets ++ [zlen (rchars r)]))
   end.
 
-(* str.split(sep) on the characters, the styles travelling with them *)
+(* split: cut the character list at the non-overlapping leftmost occurrences of the separator, drop the
+   separators (or keep them at the end of each line), drop a final blank line unless allow_blank *)
+Definition r_split (r : ref) (sep : str) (incl allow : bool) : list ref :=
+  let n := zlen sep in
+  match find_all sep (rplain (rchars r)) with
+  | [] => [r]                                   (* separator absent: a copy of the text *)
+  | ms =>
+      let lines :=
+        if incl then r_divide r (map (fun m => m + n) ms)
+        else filter (fun l => negb (str_eqb (rplain (rchars l)) sep))
+                    (r_divide r (flat_map (fun m => [m; m + n]) ms)) in
+      let pop := negb allow && (match rev lines with l :: _ => match rchars l with [] => true | _ => false end
+                                                | [] => false end) in
+      if pop then removelast lines else lines
+  end.
+
+(* an independent rendering of the same: str.split(sep) as one left-to-right scan over the characters, the styles
+   travelling with them (proofs/TextOpsP10.v: equal to r_split on an exhaustive finite domain; the driver evaluates
+   both on every generated case) *)
 Fixpoint r_split_go (sep : str) (r : list rchar) (skip : nat) (cur : list rchar) (incl : bool)
   : list (list rchar) :=
   match r with
@@ -86,7 +104,7 @@ Fixpoint r_split_go (sep : str) (r : list rchar) (skip : nat) (cur : list rchar)
           else r_split_go sep r' 0 (x :: cur) incl
       end
   end.
-Definition r_split (r : ref) (sep : str) (incl allow : bool) : list ref :=
+Definition r_split_scan (r : ref) (sep : str) (incl allow : bool) : list ref :=
   let pieces := r_split_go sep (rchars r) 0 [] incl in
   match pieces with
   | [_] => [r]                                   (* separator absent: a copy of the text *)
@@ -150,7 +168,49 @@ Definition r_align (r : ref) (how w c : Z) : ref :=
   else if how =? 1 then r_pad_right (r_pad_left r1 (excess / 2) c) (excess - excess / 2) c
   else r_pad_left r1 excess c.
 
-(* tabs: a tab becomes a space (keeping its styles) followed by fresh spaces up to the next stop;
+(* expand_tabs on reference values: lines (newline kept), each line cut after every tab; a part ending in a
+   tab has the tab replaced by a space (keeping its styles) and is followed by fresh spaces, carrying only
+   the base style, up to the next tab stop; every appended part lies under the text's base style once more
+   (a span rich adds).  `pos` is rich's running count: it only advances over parts that end in a tab. *)
+Definition r_tab_to_space (part : ref) : ref :=
+  match rev (rchars part) with
+  | (_, l) :: before => mkRef (rev before ++ [(SP, l)]) (rmeta part)
+  | [] => part
+  end.
+Fixpoint r_expand_parts (parts : list ref) (result : ref) (pos tabsz style : Z) : res (ref * Z) :=
+  match parts with
+  | [] => Ok (result, pos)
+  | part :: rest =>
+      if ends_with (rplain (rchars part)) [TAB] then
+        let part' := r_tab_to_space part in
+        let result1 := r_append_text result part' in
+        let pos1 := pos + zlen (rchars part') in
+        if tabsz =? 0 then Crash K_ZeroDivisionError
+        else
+          let spaces := tabsz - ((pos1 - 1) mod tabsz) - 1 in
+          if spaces =? 0 then r_expand_parts rest result1 pos1 tabsz style
+          else r_expand_parts rest (r_append_str result1 (py_repeat SP spaces) (Some style)) (pos1 + spaces) tabsz style
+      else r_expand_parts rest (r_append_text result part) pos tabsz style
+  end.
+Fixpoint r_expand_lines (lines : list ref) (result : ref) (pos tabsz style : Z) : res ref :=
+  match lines with
+  | [] => Ok result
+  | line :: rest =>
+      do x <- r_expand_parts (r_split line [TAB] true false) result pos tabsz style;
+      let '(result', pos') := x in r_expand_lines rest result' pos' tabsz style
+  end.
+Definition r_expand_tabs (r : ref) (tabarg : option Z) : res ref :=
+  if negb (existsb (Z.eqb TAB) (rplain (rchars r))) then Ok r
+  else match (match tabarg with Some k => Some k | None => tab (rmeta r) end) with
+       | None => Crash K_AssertionError
+       | Some tabsz =>
+           do result <- r_expand_lines (r_split r [NL] true false) (mkRef [] (rmeta r)) 0 tabsz (base (rmeta r));
+           Ok (mkRef (rchars result) (rmeta r))
+       end.
+
+(* an independent rendering of expand_tabs as one walk over the characters (proofs/TextOpsP10.v: equal to
+   r_expand_tabs on an exhaustive finite domain; evaluated by the driver on every generated case):
+   a tab becomes a space (keeping its styles) followed by fresh spaces up to the next stop;
    every character additionally lies under the text's own base style (a span rich adds) *)
 Fixpoint r_tabs_go (r : list rchar) (pos run tabsz b : Z) : list rchar :=
   match r with
@@ -163,7 +223,7 @@ Fixpoint r_tabs_go (r : list rchar) (pos run tabsz b : Z) : list rchar :=
       else if c =? NL then (c, b :: l) :: r_tabs_go r' pos 0 tabsz b
       else (c, b :: l) :: r_tabs_go r' pos (run + 1) tabsz b
   end.
-Definition r_expand_tabs (r : ref) (tabarg : option Z) : res ref :=
+Definition r_expand_tabs_walk (r : ref) (tabarg : option Z) : res ref :=
   if negb (existsb (Z.eqb TAB) (rplain (rchars r))) then Ok r
   else match (match tabarg with Some k => Some k | None => tab (rmeta r) end) with
        | None => Crash K_AssertionError
@@ -365,4 +425,21 @@ Fixpoint in_sdomain (sops : list sop) (st : list ref) : bool :=
   match sops with
   | [] => true
   | s :: rest => sop_ok s st && in_sdomain rest (r_sstep st s)
+  end.
+
+(* the two independent renderings agree with the reference operations (evaluated by the driver on every case) *)
+Definition alt_ok (o : op) (r : ref) : bool :=
+  match o with
+  | OSplit sep incl allow _ =>
+      match sep with
+      | [] => true
+      | _ => list_eqb ref_eqb (r_split r sep incl allow) (r_split_scan r sep incl allow)
+      end
+  | OExpandTabs ta =>
+      match r_expand_tabs r ta, r_expand_tabs_walk r ta with
+      | Ok a, Ok b => ref_eqb a b
+      | Crash a, Crash b => a =? b
+      | _, _ => false
+      end
+  | _ => true
   end.
